@@ -48,11 +48,11 @@ theorem BULK_TARGET_eq : BULK_TARGET = 3064 := by decide
 structure KF where
   pl : Nat → Nat → Nat
   sl : Nat → Nat
-  /-- `false`: the code as it is.  `true`: the repair of finding F22 suggested in `notes/Q12_F22_suggested_fix.diff`
-  (`short_first_separator`): the first separator of the base, when it is shorter than the base's prefix (stored with 0
-  bits), never becomes part of a `KeepChunk` or an `Update` — `push_chunk` of the builder would store it with
-  `0 + (old prefix_len - new prefix_len)` bits under a shorter prefix although the gauge counted
-  `separator_len - new prefix_len` -/
+  /-- `true`: the code (`short_first_separator` of `branch_ops.rs`, the repair of finding F22, commit `d4be933`): the
+  first separator of the base, when it is shorter than the base's prefix (stored with 0 bits), never becomes part of a
+  `KeepChunk` or an `Update`.  `false`: the code before that repair — `push_chunk` of the builder stored such a separator
+  with `0 + (old prefix_len - new prefix_len)` bits under a shorter prefix although the gauge counted
+  `separator_len - new prefix_len` (kept for the kernel-checked counterexample `T1_F22_overfull_counterexample`) -/
   canon : Bool := false
   /-- `0`: the code.  Two one-line changes of the code that the theorems must exclude (kernel-checked counterexamples in
   `Props/C01_BranchUpdater.lean`): `1` — `run_worker` merges once (`if let NeedsMerge` + one more `digest`) instead of
@@ -302,7 +302,7 @@ def pushInsert (kf : KF) (st : St) (key pn : Nat) : Option St :=
   if !st.valid then none                                    -- `assert!(self.valid_gauge)`
   else some { st with gauge := st.gauge.ingestKey kf key (kf.sl key), ops := st.ops ++ [.ins key pn] }
 
-/-- `short_first_separator(base, pos)` of the suggested repair of F22 (`false` without it) -/
+/-- `short_first_separator(base, pos)` (`false` before the repair of F22) -/
 def shortFirst (kf : KF) (b : Base) (pos : Nat) : Option Bool :=
   if kf.canon && pos == 0 then (b.node.key 0).map fun k => decide (kf.sl k < b.node.pl) else some false
 
@@ -347,8 +347,8 @@ def pushChunkHead (kf : KF) (st : St) (b : Base) (s bce : Nat) : Option St :=
     | _, _ => none
   else some st
 
-/-- the first lines of `push_chunk` with the suggested repair of F22: a short first separator is pushed as an `Insert`
-and the chunk starts behind it -/
+/-- the first lines of `push_chunk`: a short first separator is pushed as an `Insert` and the chunk starts behind it
+(repair of F22) -/
 def pushChunkShort (kf : KF) (st : St) (b : Base) (s e : Nat) : Option (St × Nat) :=
   if s < e then
     match shortFirst kf b s with
